@@ -1,7 +1,7 @@
 #!/bin/bash
 # regress.sh: (1) every benign refactor must be silent, (2) every seeded change and registered mutant must be reported.
 cd "$(dirname "$0")/.."
-declare -A GP; GP[G1]="C01 C02 C07 C03"; GP[G2]="C05 C13 C03 C12 C01"; GP[G3]="C09 C10 C17"; GP[G4]="C04 C08 C14"; GP[G5]="C11 C12 C16 C20"; GP[G6]="C15 C18 C19"; GP[H1]="${GP[G1]}"; GP[H2]="${GP[G2]}"; GP[H3]="${GP[G3]}"; GP[H4]="C04 C08 C14 C01 C03"; GP[H5]="${GP[G5]}"; GP[H6]="${GP[G6]}"; GP[J1]="C01 C02 C03 C04 C05 C06 C07 C08 C13 C18"; GP[J2]="C03 C04 C09 C10 C15 C16 C17 C19"; GP[J3]="C12 C15 C16 C18 C19 C20"
+declare -A GP; GP[G1]="C01 C02 C07 C03"; GP[G2]="C05 C13 C03 C12 C01"; GP[G3]="C09 C10 C17"; GP[G4]="C04 C08 C14"; GP[G5]="C11 C12 C16 C20"; GP[G6]="C15 C18 C19"; GP[H1]="${GP[G1]}"; GP[H2]="${GP[G2]}"; GP[H3]="${GP[G3]}"; GP[H4]="C04 C08 C14 C01 C03"; GP[H5]="${GP[G5]}"; GP[H6]="${GP[G6]}"; GP[J1]="C01 C02 C03 C04 C05 C06 C07 C08 C13 C18"; GP[J2]="C03 C04 C09 C10 C15 C16 C17 C19"; GP[J3]="C12 C15 C16 C18 C19 C20"; GP[K1]="C01 C02 C03 C06 C07"; GP[K2]="C11 C12 C15 C16 C17 C18 C20 C07"
 fa=0; miss=0
 run() { tools/seedcheck.sh "$@" 2>&1 | grep -E "CHILD-REPORT|DOES NOT|panic" ; }
 export -f run
